@@ -151,7 +151,103 @@ resource appears or disappears. -/
 theorem reachable_is_fold (cfg : Cfg) (ops : List Op) :
     (run cfg ops).slots.length = cfg.n ∧
     ∀ sl ∈ (run cfg ops).slots, sl.core = runRes cfg.sth cfg.fth sl.hist :=
-  ⟨(inv_reachable cfg ops).len, (inv_reachable cfg ops).fold⟩
+  ⟨(inv_reachable cfg ops).len, fun sl h => ((inv_reachable cfg ops).fold sl h).fold⟩
+
+/-! ## the check timeout (wrapper.rs 124: `timeout(config.timeout, check)`) -/
+
+/-- "failed **or timed-out** checks … slower than the check timeout": at an instant at which the timeout of a check
+has run out (`now ≥ start + timeout`) and its answer is not there yet (it never answers, or its latency has not
+elapsed), the check is over and its outcome is `timedOut` — a failing outcome, which `stepRes` counts exactly like an
+unhealthy answer. For every timeout, 0 included. -/
+theorem slow_check_counts_as_failed (cfg : Cfg) (now start : Nat) (it : Item)
+    (hdue : now ≥ start + cfg.timeout) (hslow : it.sym = .s ∨ now < start + it.lat) :
+    verdict cfg now start it = some .timedOut ∧ Outcome.failing .timedOut = true ∧
+    ∀ sth fth c, stepRes sth fth c .timedOut = stepRes sth fth c .unhealthy := by
+  refine ⟨?_, rfl, fun _ _ _ => rfl⟩
+  unfold verdict
+  rw [if_neg (by rintro ⟨h1, h2⟩; rcases hslow with h | h; exact h1 h; omega), if_pos hdue]
+
+/-- A per-check timeout of zero is a deadline that has run out at once, not "no deadline": the verdict at the very
+instant the check is started is never "still pending"; it is the check's own answer exactly when the check is ready
+at its first poll (latency 0), and `timedOut` otherwise. -/
+theorem timeout_zero_first_poll (cfg : Cfg) (h0 : cfg.timeout = 0) (now : Nat) (it : Item) :
+    verdict cfg now now it = some (if it.sym ≠ .s ∧ it.lat = 0 then it.sym.outcome else .timedOut) := by
+  unfold verdict
+  by_cases h : it.sym ≠ .s ∧ it.lat = 0
+  · rw [if_pos ⟨h.1, by omega⟩, if_pos h]
+  · rw [if_neg (by rintro ⟨h1, h2⟩; exact h ⟨h1, by omega⟩), if_pos (by omega), if_neg h]
+
+/-- … and conversely a check is cut off only when its timeout has run out, and never when its answer is there. -/
+theorem timed_out_only_when_due (cfg : Cfg) (now start : Nat) (it : Item)
+    (h : verdict cfg now start it = some .timedOut) (hs : it.sym ≠ .s) :
+    now ≥ start + cfg.timeout ∧ now < start + it.lat := by
+  unfold verdict at h
+  split at h
+  · rename_i hc
+    have : it.sym.outcome = .timedOut := by simpa using h
+    cases hsym : it.sym <;> rw [hsym] at this hs <;> first | exact absurd rfl hs | cases this
+  · rename_i hc
+    split at h
+    · rename_i hd; exact ⟨hd, Nat.lt_of_not_le (fun h2 => hc ⟨hs, h2⟩)⟩
+    · cases h
+
+/-! ## construction paths, `start()` again, `stop()`, observer callbacks -/
+
+/-- The configuration of the crate (`HealthCheckConfig::default()`, what a stand-alone config builder or a wrapper
+builder falls back to for every setter that is not called) has thresholds ≥ 1 and a non-zero interval and timeout:
+it meets the one side condition of the threshold theorems (`unhealthy_at_threshold`: `1 ≤ fth`). -/
+theorem crate_default_ok :
+    1 ≤ crateDefault.fth ∧ 1 ≤ crateDefault.sth ∧ 0 < crateDefault.interval ∧ 0 < crateDefault.timeout := by decide
+
+/-- `start()` called again, and `stop()`, touch nothing a resource's status is computed from: statuses, counters,
+histories, the round-robin cursor stay as they are; the checks in flight stay in flight (they only lose their round).
+With `reachable_is_fold` (which covers every operation sequence, restarts and stops included): counters are never
+reset and no check is counted twice, however often the task is restarted. -/
+theorem restart_and_stop_keep_state (cfg : Cfg) (s : State) (op : Op) (h : op = .start ∨ op = .stop) :
+    (doOp cfg s op).slots = s.slots ∧ (doOp cfg s op).ctr = s.ctr ∧ (doOp cfg s op).now = s.now ∧
+    (doOp cfg s op).pending.map (fun p => (p.r, p.start, p.item, p.id)) = s.pending.map (fun p => (p.r, p.start, p.item, p.id)) := by
+  rcases h with rfl | rfl <;> simp [doOp, emit, orphan, List.map_map, Function.comp_def]
+
+/-- After `stop()` — once the checks that were in flight have completed (they are tasks of their own and are not
+aborted with the periodic task) — the published statuses and counters are frozen: no operation other than `start()`
+changes any resource, over any further sequence of operations and any amount of virtual time. -/
+theorem stopped_freezes (cfg : Cfg) (ops : List Op) (s : State) (hp : s.phase = .stopped) (hq : s.pending = [])
+    (hops : ∀ op ∈ ops, op ≠ .start) :
+    (ops.foldl (stepS cfg) s).slots.map (·.core) = s.slots.map (·.core) ∧
+    (ops.foldl (stepS cfg) s).slots.map (·.hist) = s.slots.map (·.hist) ∧
+    (ops.foldl (stepS cfg) s).phase = .stopped :=
+  stopped_frozen cfg ops s hp hq hops
+
+/-- `on_health_change` is called exactly on the transitions of the published status: in every reachable state the
+invocations recorded for a resource form a chain `unknown → … → current status`, every link a real change
+(`old ≠ new`) — none missing (the chain ends at the current status), none spurious. -/
+theorem health_change_calls_are_the_transitions (cfg : Cfg) (ops : List Op) :
+    ∀ sl ∈ (run cfg ops).slots, linked .unknown sl.changes sl.core.status = true :=
+  fun sl h => ((inv_reachable cfg ops).fold sl h).chain
+
+/-- … per completed check: `on_health_change(old, new)` iff `old ≠ new`, `on_check_failed` iff the check timed out,
+nothing else. -/
+theorem callbacks_per_check (r : Nat) (o : Outcome) (old new : St) :
+    (HEv.cbChange r old new ∈ callbacks r o old new ↔ old ≠ new) ∧
+    (HEv.cbFailed r ∈ callbacks r o old new ↔ o = .timedOut) ∧
+    ∀ e ∈ callbacks r o old new, e = .cbFailed r ∨ e = .cbChange r old new := by
+  unfold callbacks
+  by_cases h1 : o = .timedOut <;> by_cases h2 : old = new <;> simp [h1, h2]
+
+/-- The callbacks only observe. Whether they are registered is not an input of the model's transition function
+(`stepS` takes a `Cfg`, which has no such field), so statuses, counters, selection and timing cannot depend on it;
+and what is visible with callbacks registered, minus the callback lines, is what is visible without them. -/
+theorem callbacks_only_observe (evs : List HEv) :
+    (visible true evs).filter (fun e => !e.isCallback) = visible false evs := rfl
+
+/-- `HealthStatus` ↔ `u8` (lib.rs 93-113): the round trip is the identity, the codes are 0..3, every other byte
+reads as `unknown`. -/
+theorem u8_roundtrip (s : St) : St.ofU8 s.toU8 = s ∧ s.toU8 < 4 := by cases s <;> decide
+
+theorem u8_other_is_unknown (v : Nat) (h : 3 ≤ v) : St.ofU8 v = .unknown := by
+  match v, h with
+  | 3, _ => rfl
+  | n + 4, _ => rfl
 
 /-! ## finding: one cursor for two filters
 
@@ -201,10 +297,40 @@ then never (timed out at +5 ms) twice ⇒ unhealthy exactly after the second tim
 example :
     let cfg : Cfg := { n := 1, sth := 1, fth := 2, interval := 10, timeout := 5, delay := 0,
                        strat := .first, dflt := ⟨.s, 0⟩ }
-    let ops := [Op.script 0 [⟨.h, 0⟩], .adv 10, .adv 5]
+    let ops := [Op.script 0 [⟨.h, 0⟩], .adv 10 [], .adv 5 []]
     (run cfg ops).slots.map (·.core) = [⟨.healthy, 1, 0⟩] ∧
-    (run cfg (ops ++ [.adv 5, .adv 4])).slots.map (·.core) = [⟨.healthy, 1, 0⟩] ∧
-    (run cfg (ops ++ [.adv 5, .adv 5])).slots.map (·.core) = [⟨.unhealthy, 2, 0⟩] := by
+    (run cfg (ops ++ [.adv 5 [], .adv 4 []])).slots.map (·.core) = [⟨.healthy, 1, 0⟩] ∧
+    (run cfg (ops ++ [.adv 5 [], .adv 5 []])).slots.map (·.core) = [⟨.unhealthy, 2, 0⟩] := by
+  decide
+
+/-- timeout 0 (thresholds 1/2, interval 10 ms): a check that answers 3 ms after it was called is timed out at its
+first poll, twice ⇒ unhealthy; a check that is ready at once counts with its own answer -/
+example :
+    let cfg : Cfg := { n := 2, sth := 1, fth := 2, interval := 10, timeout := 0, delay := 0,
+                       strat := .first, dflt := ⟨.h, 0⟩ }
+    let ops := [Op.script 0 [⟨.h, 3⟩, ⟨.h, 3⟩], .adv 10 []]
+    (run cfg ops).slots.map (·.core) = [⟨.unhealthy, 2, 0⟩, ⟨.healthy, 0, 2⟩] ∧
+    (run cfg ops).pending = [] := by
+  decide
+
+/-- `start()` again while a check is in flight (interval 10, timeout 5, thresholds 1/1): the old check is not lost —
+it is cut off at its own deadline although its periodic task is gone — and the new task checks at once (two checks
+of one resource in flight). When both complete at one instant the outcome depends on the order, which is the
+scheduler's (taken from the implementation as an observed choice). After `stop()` the check in flight still
+completes, then nothing changes any more; the recorded `on_health_change` invocations are exactly the transitions. -/
+example :
+    let cfg : Cfg := { n := 1, sth := 1, fth := 1, interval := 10, timeout := 5, delay := 0,
+                       strat := .first, dflt := ⟨.h, 2⟩ }
+    let ops := [Op.script 0 [⟨.s, 0⟩], .adv 1 [], .start]
+    (run cfg ops).pending.map (fun p => (p.id, p.cur)) = [(0, false), (1, true)] ∧
+    (run cfg (ops ++ [.adv 4 [0, 1]])).slots.map (·.core) = [⟨.healthy, 0, 1⟩] ∧
+    (run cfg (ops ++ [.adv 4 [1, 0]])).slots.map (·.core) = [⟨.unhealthy, 1, 0⟩] ∧
+    (run cfg (ops ++ [.adv 4 [0, 1], .adv 6 [], .stop])).pending.map (·.id) = [2] ∧
+    (run cfg (ops ++ [.adv 4 [0, 1], .adv 6 [], .stop, .adv 50 []])).slots.map (·.core) = [⟨.healthy, 0, 2⟩] ∧
+    (run cfg (ops ++ [.adv 4 [0, 1], .adv 6 [], .stop, .adv 50 []])).slots.map (·.changes) =
+      [[(.unknown, .unhealthy), (.unhealthy, .healthy)]] ∧
+    (run cfg (ops ++ [.adv 4 [0, 1], .adv 6 [], .stop, .adv 50 [], .adv 500 []])).slots.map (·.core) = [⟨.healthy, 0, 2⟩] ∧
+    (run cfg (ops ++ [.adv 4 [0, 1], .adv 6 [], .stop, .adv 50 []])).phase = .stopped := by
   decide
 
 end TR.Props.C18
